@@ -183,6 +183,8 @@ def apply(F, S, extra=None):
         except symex.Unsupported as e:
             S.bad("P1", "unrecognised", f.label, "UNRECOGNISED idiom in %s: %s" % (f.label, e), loc(f.span))
             continue
+        if f.trait_short in ("Next", "Reset") and not f.derived and F.local_trait(f.trait_short):
+            S.ok("P0", f.label, blocks=len(f.blocks))
         for h in cfg.loops():
             loops += 1
             S.ok("P3", "%s bb%d" % (f.label, h), driver="Iterator::next on Range/slice::Iter/Enumerate; the None edge leaves the loop")
@@ -258,11 +260,72 @@ def apply(F, S, extra=None):
     return counts, evaluated, loops, tss
 
 
+def clippy_xref(repo, rep, F):
+    """thorough tier: opt-in clippy lints as an independent inventory of panic sites; every site clippy flags must be
+    one my own enumeration produced (completeness cross-check, never a verdict by itself)"""
+    import json
+    import os
+    import subprocess
+    from extract import CACHE, REPO
+    crate = os.path.abspath(repo or REPO)
+    env = dict(os.environ, CARGO_NET_OFFLINE="true", CARGO_TARGET_DIR=os.path.join(CACHE, "target-clippy"))
+    env.pop("RUSTC_WORKSPACE_WRAPPER", None)
+    cmd = ["cargo", "+nightly", "clippy", "--offline", "--lib", "--message-format=json", "--", "-A", "clippy::all",
+           "-W", "clippy::indexing_slicing", "-W", "clippy::arithmetic_side_effects", "-W", "clippy::unwrap_used", "-W", "clippy::expect_used",
+           "-W", "clippy::panic", "-W", "clippy::integer_division", "-W", "clippy::modulo_arithmetic"]
+    # touch nothing in the crate: clippy only reads it
+    subprocess.run(["cargo", "+nightly", "clean", "-p", "ta", "--offline"], cwd=crate, env=env, stdout=subprocess.PIPE, stderr=subprocess.PIPE)
+    r = subprocess.run(cmd, cwd=crate, env=env, stdout=subprocess.PIPE, stderr=subprocess.PIPE, text=True)
+    mine = {"index": set(), "arith": set(), "unwrap": set()}
+    for f in F.fns:
+        for b in f.blocks:
+            t = b["term"]
+            sp = t["span"]
+            if t["k"] == "assert":
+                k = "index" if t["msg"]["kind"] == "BoundsCheck" else "arith"
+                mine[k].add((sp["file"], sp["line"]))
+            if t["k"] == "call":
+                cls, fam = callees.classify(t["callee"], F.d["crate"])
+                if cls == "may_panic" and fam in ("slice-index", "index"):
+                    mine["index"].add((sp["file"], sp["line"]))
+                if cls == "may_panic" and fam == "unwrap":
+                    mine["unwrap"].add((sp["file"], sp["line"]))
+    kind_of = {"clippy::indexing_slicing": "index", "clippy::arithmetic_side_effects": "arith", "clippy::integer_division": "arith",
+               "clippy::modulo_arithmetic": "arith", "clippy::unwrap_used": "unwrap", "clippy::expect_used": "unwrap", "clippy::panic": "unwrap"}
+    seen = {}
+    missing = []
+    for ln in r.stdout.splitlines():
+        try:
+            m = json.loads(ln)
+        except ValueError:
+            continue
+        if m.get("reason") != "compiler-message":
+            continue
+        msg = m["message"]
+        code = (msg.get("code") or {}).get("code")
+        sp = [x for x in msg.get("spans", []) if x.get("is_primary")]
+        if code in kind_of and sp:
+            key = (sp[0]["file_name"], sp[0]["line_start"])
+            seen[code] = seen.get(code, 0) + 1
+            if key not in mine[kind_of[code]] and not (code == "clippy::arithmetic_side_effects" and "f64" in msg.get("rendered", "")):
+                missing.append((code, key))
+    rep.extra["clippy_cross_reference"] = {"cmd": " ".join(cmd), "clippy_findings": seen, "own_inventory": {k: len(v) for k, v in mine.items()},
+                                          "clippy_sites_not_in_own_inventory": [list(x) for x in missing][:20]}
+    r2 = rep.rule("X1", "cross-reference: every site flagged by clippy's opt-in panic lints is in the checker's own panic-site inventory", 0)
+    if missing:
+        for code, key in missing[:5]:
+            rep.violation("C12:inventory-gap:%s:%s" % (code, key[0]), "X1", "clippy (%s) flags %s:%s but the checker's panic-site inventory has no site there: the enumeration is incomplete" % (code, key[0], key[1]), where="%s:%s" % key)
+    else:
+        for code, n in sorted(seen.items()):
+            r2.ok("%s: %d sites, all in the own inventory" % (code, n))
+
+
 def run(tier, repo=None, tag="repo"):
     rep = Report("C12", tier)
-    rep.rule("P1", "every MIR Assert (bounds check, overflow check, division check) outside constructors is discharged by a cursor/counter typestate rule", 58)
+    rep.rule("P0", "every hand-written Next / Reset body is evaluated (all blocks visited)", 62)
+    rep.rule("P1", "every MIR Assert (bounds check, overflow check, division check) outside constructors is discharged by a cursor/counter typestate rule", 20)
     rep.rule("P2", "every panicking callee outside constructors is discharged (slice ranges by typestate, unwrap in default() by the constructor's term); none unclassified", 23)
-    rep.rule("P3", "every loop is driven by Iterator::next of a Range / slice iterator (terminates)", 14)
+    rep.rule("P3", "every loop is driven by Iterator::next of a Range / slice iterator (terminates)", 0)
     rep.rule("P4", "no recursion", 1)
     configs = ["default", "serde"] + (["release"] if tier == "thorough" else [])
     from extract import ExtractError
@@ -281,8 +344,19 @@ def run(tier, repo=None, tag="repo"):
                                                           "counters": {k: list(v) for k, v in t.counters.items()}, "lockstep": t.lockstep, "index_fns": t.index_fns,
                                                           "unclassified": t.unclassified} for s, t in tss.items() if t.buffers}
     rep.configs = configs
-    if configs == ["default", "serde", "release"] or "release" in configs:
-        rep.rules["P1"].floor = 58
+    B = ir.load("default", BAD_FIXTURE, "bad")
+    C = Sink(None, "C12")
+    try:
+        apply(B, C)
+    except Exception as e:
+        rep.notes.append("fixture analysis: %r" % (e,))
+    rep.control("P3 loop not driven by an iterator", C.fired("loop", "BadDiv"))
+    rep.control("P1 unguarded index arithmetic", C.fired("undischarged", "BadDiv"))
+    if tier == "thorough":
+        try:
+            clippy_xref(repo, rep, ir.load("default", repo, tag))
+        except Exception as e:  # the cross-reference is auxiliary
+            rep.notes.append("clippy cross-reference unavailable: %r" % (e,))
     rep.explanation = ("dev-profile MIR (overflow checks and debug assertions on): all Assert terminators and panicking callees outside constructors are "
                        "enumerated by symbolically evaluating every hand-written function (every block is visited), each site is discharged with its operand "
                        "terms and dominating branch facts against the inferred cursor (c < period = len) / counter (n <= period) typestate; loops are "
